@@ -52,8 +52,13 @@ C = {
          "element, and every iteration moves the head the structured way (if: then-branch iff condition; while: body iff condition; break / continue offsets)",
          "compute_next_steps on generated structured 1.0 flows vs a reference structured-program reading; decision is a function of the history alone", "`set` elements excluded from the proved part by precondition; eval_expression is unknown pure code; the multi-flow decision "
          "(compute_next_state) is bounded only"),
- "C15": (None, "conversation isolation on a shared LLMRails instance: sequential interleavings, cache-key injectivity (exhaustive small lists), llm_params sequential and "
-               "concurrent (asyncio tasks with gated latencies)", "bounds in evidence"),
+ "C15": ("LLMParams.__enter__ / __exit__ (llm/params.py) and their composition: every altered parameter that is an attribute of the llm object is saved and "
+         "overwritten, every other attribute is untouched, no attribute appears or disappears; after `enter; exit` EVERY attribute of the llm object is "
+         "identical to its value before (any llm object, any number of parameters, any values; frames of both methods verified)",
+         "conversation isolation on a shared LLMRails instance: sequential interleavings, cache-key injectivity (exhaustive small lists), llm_params sequential "
+         "(incl. the model_kwargs route) and concurrent (asyncio tasks with gated latencies)",
+         "setattr/getattr/hasattr are plain attribute-dictionary operations (A-SETATTR: no properties/slots/__setattr__ on the llm object); parameters routed to "
+         "model_kwargs and overlapping contexts are bounded only (both are recorded known findings); the events-history cache and reply equality are bounded only"),
  "C16": ("flow contracts on llm_flows.co: with a category disabled its rails do not run (input / output / retrieval), with dialog disabled generate_user_intent "
          "is never executed and the flow answers with $user_message (output off) or BotMessage($bot_message); $skip_output_rails never survives `process bot message`",
          "all 16 subsets of rail categories x verdict combinations x texts through the real generate, with log oracle; multi-turn on one instance and with state; the generation log oracle", "A-COLANG (see C01); compute_generation_log and the events cache are bounded only"),
